@@ -346,9 +346,9 @@ CallLcCollect(a, e) ==
   ELSE [CutFrames(a, e.t, i) EXCEPT !.ls = Put(@, e.ls, [ents |-> IF fr[i].live THEN a.sc[e.c].ents ELSE <<>>, t |-> e.t, over |-> e.c \in a.ovs])]
 
 CallLcDrop(a, e) ==
-  LET fr == Frames(a, e.t) IN
-  IF fr = <<>> \/ TopFrame(a, e.t).n # e.c THEN Viol(a, "HARNESS", "ill-nested-collector", e)
-  ELSE PopFrame(a, e.t)
+  LET fr == Frames(a, e.t) i == FrameOf(fr, e.c) IN
+  IF i = 0 \/ ~OnlyLocalsAbove(fr, i) THEN Viol(a, "HARNESS", "ill-nested-collector", e)
+  ELSE CutFrames(a, e.t, i)
 
 \* can the innermost scope of t record one more entry?
 CanRecord(a, t) == LET s == ScopeOf(a, t) IN s # None /\ a.sc[s].smp /\ Len(a.sc[s].ents) < a.cfg.queue
@@ -516,9 +516,12 @@ CopyMissing(a, st, late) ==
       ps == {x \in late : x.own /\ Has(a.ls, x.sc) /\ a.rt[x.r].cid \notin a.cut}
       st1 == IF m # {} THEN ViolK(st, "C02", "copy-missing", {[n |-> x.n, r |-> x.r, par |-> x.par] : x \in m},
                                   IF \A x \in m : a.rt[x.r].cid \in a.cut THEN "cut" ELSE None)
-             ELSE st IN
-  IF ps # {} THEN Viol(st1, "C17", "pushed-set-copy-missing", {[n |-> x.n, r |-> x.r, par |-> x.par] : x \in ps})
-  ELSE st1
+             ELSE st
+      st2 == IF ps # {} THEN Viol(st1, "C17", "pushed-set-copy-missing", {[n |-> x.n, r |-> x.r, par |-> x.par] : x \in ps}) ELSE st1
+      \* default configuration: cancel() is a no-op - what the trace records afterwards arrives all the same (C04)
+      dc == {x \in late : a.rt[x.r].dcancel /\ a.rt[x.r].cid \notin a.cut} IN
+  IF dc # {} THEN Viol(st2, "C04", "lost-after-cancel-in-the-default-configuration", {[n |-> x.n, r |-> x.r] : x \in dc})
+  ELSE st2
 
 CallFlush(a, e) == [a EXCEPT !.fl = Put(@, e.t, DueNow(a))]
 RetFlush(a, e) ==
